@@ -16,6 +16,7 @@ import signal
 
 from vf import seams
 from vf.engines import v2x
+from vf.engines.v2x import sm
 from vf.engines.v2x import Explorer, Violation
 
 PROP = "C10"
@@ -139,6 +140,105 @@ def explore_t(task):
     r = v2x.result_of(ex, info)
     r["counts"]["max_pops_seen"] = ex.stats.extra.get("max_pops_seen", 0)
     return r
+
+
+
+# ----------------------------------------------------------------------------- part R (rounds)
+# The bound of the statement depends on the program only - not on the history.  Stationary programs (activated
+# flows that restart, with and without the `start_new_flow_instance:` label) are driven with the same period
+# of events again and again: the cost of an event (internal events popped by run_to_completion) must stay
+# within the program-size budget in every round and must not keep growing from round to round.
+LABEL_BODIES = [
+    ["match E1()", "send Tick()", "start_new_flow_instance:", "match E2()", "send Tock()"],
+    ["match E1()", "start ActAAction()", "start_new_flow_instance:", "match E2()", "start ActBAction()"],
+    ["match E1()", "start_new_flow_instance:", "match E2()", "match E1()", "send Tock()"],
+    ["match E1()", "match E2()", "start_new_flow_instance:", "match E1()", "send Tock()"],
+    ["match E1()", "send Tick()", "start_new_flow_instance:", "await h"],
+    ["match E1()", "when E2()", "  send Tick()", "  start_new_flow_instance:", "  match E1()", "or when X()", "  send Tock()"],
+    ["match E1()", "send Tick()", "match E2()", "send Tock()"],
+    ["match E1() or E2()", "send Tick()"],
+    ["await h", "send Tick()"],
+    ["start h", "match E1()"],
+]
+PERIODS = [("E1",), ("E2",), ("E1", "E2"), ("E2", "E1"), ("E1", "E1", "E2"), ("E1", "E2", "X")]
+ROUNDS = 10
+
+
+def r_programs():
+    for gb in LABEL_BODIES:
+        g = "flow g $p=0\n" + ind(gb)
+        h = "flow h\n" + ind(["match E2()"])
+        for starter in ("activate g", "activate g\n  activate g $p=1", "activate w"):
+            w = "flow w\n" + ind(["activate g", "match Never()"]) if starter == "activate w" else ""
+            main = "flow main\n  " + starter + "\n  match Never()\n"
+            yield g + "\n" + h + "\n" + w + "\n" + main, {"g": gb, "starter": starter}
+
+
+def rounds_task(task):
+    src, info = task
+    res = {"programs": 0, "drives": 0, "events": 0, "max_pops": 0, "drives_reaching_a_repeated_state": 0, "viol": []}
+    try:
+        st0 = v2x.init_state(src)
+    except Exception as e:
+        res["viol"].append(("harness:program-rejected", f"{e!r}", {"engine": "C10-R", "source": src}))
+        return res
+    res["programs"] = 1
+    n_elements = sum(len(c.elements) for c in st0.flow_configs.values())
+    budget = 50 * (n_elements + 10)
+    for period in PERIODS:
+        st = v2x.copy_state(st0)
+        rp = {"engine": "C10-R", "prop": "C10", "source": src, "period": list(period), "info": info}
+        uid_n = v2x.UIDS.n
+        try:
+            _pts, uid_n, _pops = v2x.step(st, v2x.resolve_event(st, ("start_main",)), [], 0, budget=budget)
+        except BaseException as e:  # part T judges the first steps
+            if isinstance(e, (KeyboardInterrupt, SystemExit)):
+                raise
+            continue
+        res["drives"] += 1
+        costs, live, keys, bad = [], [], [], None
+        for r in range(ROUNDS):
+            row = []
+            for name in period:
+                try:
+                    _pts, uid_n, pops = v2x.step(st, {"type": name}, [], uid_n, budget=budget)
+                except seams.StepBudgetExceeded:
+                    bad = ("budget", r, name)
+                    break
+                except Exception as e:
+                    bad = ("raised", r, name, repr(e)[:160])
+                    break
+                res["events"] += 1
+                res["max_pops"] = max(res["max_pops"], pops)
+                row.append(pops)
+            if bad:
+                break
+            costs.append(tuple(row))
+            live.append(sum(1 for fs in st.flow_states.values() if sm.is_listening_flow(fs)))
+            keys.append(v2x.canon_key(st))
+            if len(keys) >= 2 and keys[-1] in keys[:-1]:
+                res["drives_reaching_a_repeated_state"] += 1
+                break   # the state repeats: all later rounds cost the same
+        if bad and bad[0] == "budget" and bad[1] >= 1:
+            res["viol"].append(("non-termination-trend:event-exceeds-the-program-size-budget-after-earlier-rounds",
+                                f"period {period}: event {bad[2]} of round {bad[1] + 1} needed more than {budget} internal events "
+                                f"(= 50 x (elements {n_elements} + 10)); earlier rounds cost {costs}; live instances {live}; flow g = {info['g']}, `{info['starter'].splitlines()[0]}`", rp))
+        elif bad and bad[0] == "raised" and bad[1] >= 1:
+            res["viol"].append(("exception-escaped-run-to-completion-in-a-later-round",
+                                f"period {period}: round {bad[1] + 1}, event {bad[2]}: {bad[3]}; flow g = {info['g']}", rp))
+        elif not bad and len(costs) >= 6:
+            tot = [sum(c) for c in costs]
+            if all(tot[i] < tot[i + 1] for i in range(len(tot) - 5, len(tot) - 1)) and all(live[i] < live[i + 1] for i in range(len(live) - 5, len(live) - 1)):
+                res["viol"].append(("non-termination-trend:per-event-cost-and-live-instances-grow-with-every-round",
+                                    f"period {period}: internal events per round {tot}, live flow instances after each round {live} "
+                                    f"(same events every round); flow g = {info['g']}, `{info['starter'].splitlines()[0]}`", rp))
+    seen, uniq = set(), []
+    for v in res["viol"]:
+        if v[0] not in seen:
+            seen.add(v[0])
+            uniq.append(v)
+    res["viol"] = uniq
+    return res
 
 
 class WallClockExceeded(BaseException):
@@ -384,6 +484,14 @@ def run(rep, tier):
             agg[k] += r[k]
         for sig, what, info in r["viol"]:
             rep.violation(sig, what, info)
+    rr = {"programs": 0, "drives": 0, "events": 0, "max_pops": 0, "drives_reaching_a_repeated_state": 0}
+    for r in par.pmap(rounds_task, list(r_programs())):
+        for k in rr:
+            rr[k] = max(rr[k], r[k]) if k == "max_pops" else rr[k] + r[k]
+        for sig, what, info in r["viol"]:
+            rep.violation(sig, what, info)
+    for k, v in rr.items():
+        rep.set("rounds_" + k, v)
     act = {"programs": 0, "histories": 0}
     for r in par.pmap(active_task, ACTIVE_BODIES):
         act["programs"] += r["programs"]; act["histories"] += r["histories"]
@@ -411,6 +519,26 @@ explore = explore_t
 
 
 def replay(rp):
+    if rp.get("engine") == "C10-R":
+        print(rp["source"])
+        st = v2x.init_state(rp["source"])
+        _p, uid_n, pops = v2x.step(st, v2x.resolve_event(st, ("start_main",)), [], 0, budget=200000)
+        for r in range(ROUNDS):
+            row = []
+            for name in rp["period"]:
+                try:
+                    _p, uid_n, pops = v2x.step(st, {"type": name}, [], uid_n, budget=200000)
+                except seams.StepBudgetExceeded:
+                    pops = ">200000"
+                row.append(pops)
+                if pops == ">200000":
+                    break
+            print(f"round {r + 1}: internal events per event {row}; live instances",
+                  sum(1 for fs in st.flow_states.values() if sm.is_listening_flow(fs)))
+            if ">200000" in row:
+                break
+        print(rp["what"])
+        return 0
     if rp.get("engine") == "C10-F":
         rt = _runtime(rp["source"])
         loop = asyncio.new_event_loop()
